@@ -284,7 +284,11 @@ class HistEngine(EngineBase):
             if "code" in op:
                 d["code"] = op["code"][:90]
             return d
-        return {"fmt0": wl["fmt0"], "ops": [short(o) for o in wl["ops"]]}
+        ops = wl["ops"]
+        d = {"fmt0": wl["fmt0"], "n_ops": len(ops), "ops": [short(o) for o in ops[:30]]}
+        if len(ops) > 30:
+            d["ops"].append({"note": f"... {len(ops) - 30} more operations"})
+        return d
 
     def assumptions(self):
         return ["real: everything in rzilcompiler, incl. Conf.get_path's git subprocesses; one fork of a pristine zygote per run",
